@@ -49,6 +49,19 @@ KindsTabLate == [c \in ClassesLate |->
                      [] c = "lb"   -> K6("absent", "str", "absent", "int", "absent", "absent")
                      [] c = "lc"   -> K6("int", "absent", "absent", "absent", "str", "absent")
                      [] c = "ld"   -> K6("absent", "str", "absent", "absent", "absent", "flt")]
+\* ---- C01 text classes: several string columns in ONE event (escapes / unicode in different columns and nesting
+\* positions of the same document)
+ClassesText == {"txt6", "txt3", "num6"}
+KindsTabText == [c \in ClassesText |->
+                   CASE c = "txt6" -> K6("str", "str", "str", "str", "str", "str")
+                     [] c = "txt3" -> K6("str", "int", "str", "absent", "str", "null")
+                     [] c = "num6" -> K6("int", "flt", "absent", "str", "absent", "bool")]
+XTabText == [c \in ClassesText |-> <<>>]
+TTabText == [c \in ClassesText |-> <<>>]
+MTabText == [c \in ClassesText |-> MI(1)]
+ClassesOne == {"num"}
+TsOoo == {"inc", "back", "far"}
+
 XTabLate == [c \in ClassesLate |-> <<>>]
 TTabLate == [c \in ClassesLate |-> <<>>]
 MTabLate == [c \in ClassesLate |-> IF c \in {"la", "ld"} THEN MF(3) ELSE MI(2)]
